@@ -122,6 +122,7 @@ class Control(fakenet.BaseServer):
         self.run = run
         self.buf = b''
         self.data_ep = None
+        self.cwd = []
 
     def on_connect(self, ep):
         ep.send(b'220 ready\r\n')
@@ -138,7 +139,13 @@ class Control(fakenet.BaseServer):
         name, _, arg = line.partition(b' ')
         name = name.upper().decode('latin-1')
         arg = arg.decode('utf-8', 'replace')
+        if name in ('LIST', 'NLST') and arg.startswith('-'):
+            arg = ' '.join(t for t in arg.split(' ') if not t.startswith('-'))       # ls options
         if name in ('LIST', 'MLSD', 'NLST', 'RETR', 'SIZE', 'CWD', 'MDTM', 'MLST', 'STAT'):
+            # a relative argument (or none) is resolved against the directory a previous CWD selected: a client
+            # that changes directory first and then lists "here" is judged by the directory it listed
+            if not arg.startswith('/'):
+                arg = '/' + '/'.join(self.cwd + ([arg] if arg else [])) + ('/' if not arg and self.cwd else '')
             run.on_command(name, arg)
         else:
             run.other_cmds[name] = run.other_cmds.get(name, 0) + 1
@@ -186,9 +193,13 @@ class Control(fakenet.BaseServer):
                 dep.close()
             ep.send(b'226 done\r\n')
         elif name == 'CWD':
+            self.cwd = segs_of(arg)
+            ep.send(b'250 ok\r\n')
+        elif name == 'CDUP':
+            self.cwd = self.cwd[:-1]
             ep.send(b'250 ok\r\n')
         elif name == 'PWD':
-            ep.send(b'257 "/"\r\n')
+            ep.send(('257 "/%s"\r\n' % '/'.join(self.cwd)).encode())
         elif name == 'REST':
             ep.send(b'350 ok\r\n')
         elif name == 'QUIT':
